@@ -4,7 +4,7 @@ c11_tie = importlib.util.module_from_spec(_spec); _spec.loader.exec_module(c11_t
 T = "GeomV.C11."
 CFG = {
     "id": "C11",
-    "lean_modules": ["GeomV.C11.Proofs", "GeomV.C11.ProofsArith", "GeomV.C11.ProofsFill", "GeomV.C11.ProofsHeap", "GeomV.C11.ProofsParent", "GeomV.C11.ProofsParentIns", "GeomV.C11.ProofsParentDel"] + c11_tie.C11_TIES,
+    "lean_modules": ["GeomV.C11.Proofs", "GeomV.C11.ProofsArith", "GeomV.C11.ProofsFill", "GeomV.C11.ProofsHeap", "GeomV.C11.ProofsParent", "GeomV.C11.ProofsParentIns", "GeomV.C11.ProofsParentDel", "GeomV.C11.ProofsHeapDel", "GeomV.C11.ProofsHeapIns"] + c11_tie.C11_TIES,
     "exe": "geomv_c11",
     "go_cmd": "c11",
     "stages": ["go:gen", "go:impl", "lean:judge"],
@@ -31,6 +31,10 @@ CFG = {
         # … Delete (entry removal, condenseTree's upward loop and re-insertion loop, root collapse) and ALL histories (ProofsParentDel.lean)
         "Heap.VJ.shrink0", "Heap.condense_P", "Heap.reinsert_P", "Heap.C11_heap_parent_delete", "Heap.C11_heap_parent_step",
         "Heap.C11_heap_parent_reachable",
+        # phase 4: the first phase of Delete (findLeaf + index loop) and the descent of insert (chooseNode) of the pointer-level model refine
+        # the functional model; the fused recursions delIn / insertAt of the functional model are linked to the separate findLeafF / chooseNodeF
+        "Heap.C11_delIn_findLeaf", "Heap.C11_heap_delete_phase1_refines", "Heap.C11_insertAt_chooseNode", "Heap.C11_heap_chooseNode_refines",
+        "Heap.C11_heap_collapse_refines",
         # T1: definitions regenerated from index/rtree/{geom,rtree}.go of the tree under test = the model's
         "C11_tie_size", "C11_tie_margin", "C11_tie_containsPoint", "C11_tie_containsRect", "C11_tie_intersect",
         "C11_tie_enlarge", "C11_tie_initBoundingBox", "C11_tie_boundingBox", "C11_tie_computeBoundingBox",
